@@ -975,7 +975,13 @@ fn copy_tree(from: &Path, to: &Path) -> std::io::Result<()> {
 }
 
 /// All damage for one generated directory.  `exhaustive_bits`: all 8 bits per byte.
-fn examine(recipe: &Recipe, worker: usize, thorough: bool, only: Option<(&str, &[Damage])>) -> Result<CaseStats, String> {
+fn examine(
+    recipe: &Recipe,
+    worker: usize,
+    thorough: bool,
+    only: Option<(&str, &[Damage])>,
+    deadline: Option<std::time::Instant>,
+) -> Result<CaseStats, String> {
     let base = util::scratch_for(worker).join("bytes");
     let gen_dir = base.join("gen");
     let work = base.join("work");
@@ -1109,6 +1115,11 @@ fn examine(recipe: &Recipe, worker: usize, thorough: bool, only: Option<(&str, &
             }
         }
         for c in cases.iter() {
+            if deadline.map(|d| std::time::Instant::now() > d).unwrap_or(false) {
+                // the phase's time budget ran out inside this file's enumeration
+                *stats.outcomes.entry("probe:enumeration-of-a-file-cut-short-by-the-time-budget".to_string()).or_insert(0) += 1;
+                break;
+            }
             fresh(&work)?;
             run_case(&g, kind, target, &pristine_bytes, &pristine_obs, &prefix_obs, &regions, c, &work, &scratch, &mut stats);
         }
@@ -1249,6 +1260,7 @@ pub fn cmd_bytes(args: &Args) -> i32 {
     let kinds2 = kinds.clone();
     let mode2 = mode.clone();
     let prop2 = prop.clone();
+    let deadline = budget_s.map(|b| start + std::time::Duration::from_secs_f64(b * 1.1));
     let results = util::par_map(runs, threads, budget_s, move |r, w| {
         let kind = kinds2[(r % kinds2.len() as u64) as usize].clone();
         let recipe = Recipe { kind, seed: rng::mix(&[seed, rng::str_seed(&prop2), r]) };
@@ -1257,7 +1269,7 @@ pub fn cmd_bytes(args: &Args) -> i32 {
             let s = log_roundtrip(&recipe, w, &mut stats);
             (recipe, s.map(|v| (stats, Some(v))))
         } else {
-            let s = examine(&recipe, w, thorough, None);
+            let s = examine(&recipe, w, thorough, None, deadline);
             (recipe, s.map(|st| (st, None)))
         }
     });
@@ -1393,7 +1405,7 @@ pub fn replay(text: &str, path: &Path) -> i32 {
             }
         }
     } else {
-        match examine(&r.recipe, 0, false, Some((&r.file, &r.damage))) {
+        match examine(&r.recipe, 0, false, Some((&r.file, &r.damage)), None) {
             Ok(s) => s.viols,
             Err(e) => {
                 eprintln!("HARNESS-ERROR: {e}");
